@@ -173,25 +173,21 @@ Theorem C12_replace_same_atom_is_identity : forall E f a p,
 Proof. exact replace_same_atom_is_identity. Qed.
 Print Assumptions C12_replace_same_atom_is_identity.
 
-(* the code as it stands agrees with the repaired model wherever it returns a value for two
-   different atoms ... *)
-Theorem C12_replace_code_agrees : forall E f src tgt p g, src <> tgt ->
-  f_replace_code E f src tgt p = Some g -> g = f_replace E f src tgt p.
+(* the code as it stands (after repairs 7a61cac, b97d1be) is the model, for every input: every theorem above about
+   f_replace is a theorem about the code's branches *)
+Theorem C12_replace_code_agrees : forall E f src tgt p,
+  f_replace_code E f src tgt p = f_replace E f src tgt p.
 Proof. exact replace_code_agrees. Qed.
 Print Assumptions C12_replace_code_agrees.
 
-(* ... but raises on an unknown density (witness H2O, H -> D), and loses the atom when an atom
-   is substituted for itself (witness H2O@1, H -> H) *)
-Theorem C12_replace_unknown_stays_unknown_code_refuted :
-  exists E f src tgt p, f_density f = None /\ f_replace_code E f src tgt p = None /\
-    f_density (f_replace E f src tgt p) = None.
-Proof. exact replace_unknown_stays_unknown_code_refuted. Qed.
-Print Assumptions C12_replace_unknown_stays_unknown_code_refuted.
-
-Theorem C12_replace_same_atom_code_refuted :
-  exists E f a p g, f_replace_code E f a a p = Some g /\ ~ cnt_s a (f_struct g) == cnt_s a (f_struct f).
-Proof. exact replace_same_atom_code_refuted. Qed.
-Print Assumptions C12_replace_same_atom_code_refuted.
+(* the former failing inputs (H2O without density, H -> D; H2O@1, H -> H) *)
+Theorem C12_replace_former_witnesses :
+  f_density (f_replace_code E_unit (water None) (mkAtom 1 0 0) (mkAtom 1 2 0) 1) = None /\
+  cnt_s (mkAtom 1 2 0) (f_struct (f_replace_code E_unit (water None) (mkAtom 1 0 0) (mkAtom 1 2 0) 1)) == 2 /\
+  cnt_s (mkAtom 1 0 0) (f_struct (f_replace_code E_unit (water (Some 1)) (mkAtom 1 0 0) (mkAtom 1 0 0) 1)) == 2 /\
+  f_density (f_replace_code E_unit (water (Some 1)) (mkAtom 1 0 0) (mkAtom 1 0 0) 1) = Some 1.
+Proof. exact replace_former_witnesses. Qed.
+Print Assumptions C12_replace_former_witnesses.
 
 (* ================================================================ volumes (over R) *)
 Open Scope R_scope.
